@@ -184,9 +184,9 @@ func init() {
 	register(&Property{
 		ID:    "C18",
 		Level: "exploration",
-		Rule: "`a [m..n]` and `ja [m..n]` for integer pairs in [-200,200] (quick: all |m|,|n| <= 12 plus 1500 PRNG pairs; thorough: the whole square), zero-padded pairs where every reading of the statement agrees (both bounds non-negative and written to the same width), and 1-3 expansion blocks (ranges and comma lists) with literal prefixes/suffixes; " +
+		Rule: "`a [m..n]` and `ja [m..n]` for integer pairs in [-200,200] (quick: all |m|,|n| <= 12 plus 1500 PRNG pairs; thorough: the whole square), zero-padded pairs where every reading of the statement agrees (both bounds non-negative and written to the same width, or only the numerically lower bound padded and the other written plainly, possibly with more digits than the padding width), and 1-3 expansion blocks (ranges and comma lists) with literal prefixes/suffixes; " +
 			"compared with a reference generator (inclusive, ascending or descending, padding, odometer order with the last block fastest); non-trivial = descending, negative, padded or multi-block; distinct by parameter text",
-		Assumptions: []string{"padding is asserted only when both bounds are written to the same width", "ja elements are compared after stringification (ja emits numbers or strings depending on the range)"},
+		Assumptions: []string{"padding is asserted when both bounds are written to the same width or only the lower bound is padded; a padded upper bound with a plain lower bound is not asserted (murex does not pad then; the statement does not say which bound decides)", "ja elements are compared after stringification (ja emits numbers or strings depending on the range)"},
 		Check:       listCheck("C18"),
 		Run: func(x *Ctx) {
 			pool := x.NewPool(false)
@@ -248,6 +248,24 @@ func init() {
 				}
 				m, n := r.Intn(max), r.Intn(max)
 				add(fmt.Sprintf("[%0*d..%0*d]", w, m, w, n), rng(m, n, w), true)
+			}
+			// only the numerically lower bound is zero-padded; the other bound is written plainly and may
+			// have more digits than the padding width (values wider than the width print in full)
+			for i := 0; i < x.Pick(400, 6000); i++ {
+				w := 2 + r.Intn(2)
+				lo := r.Intn(100)
+				if w == 3 {
+					lo = r.Intn(201)
+				}
+				hi := lo + 1 + r.Intn(200-lo+1) // strictly above: with equal values neither bound is "the lower one"
+				if len(strconv.Itoa(lo)) >= w {
+					continue // the lower bound would not be padded at this width
+				}
+				if r.Intn(2) == 0 {
+					add(fmt.Sprintf("[%0*d..%d]", w, lo, hi), rng(lo, hi, w), true)
+				} else {
+					add(fmt.Sprintf("[%d..%0*d]", hi, w, lo), rng(hi, lo, w), true)
+				}
 			}
 			// multi-block
 			for i := 0; i < x.Pick(600, 12000); i++ {
